@@ -551,3 +551,38 @@ PROPS["C04"] = {
 # native fuzz campaigns in the thorough tier (one per Fuzz* target of the package)
 if "C13" in PROPS:
     PROPS["C13"]["thorough"]["fuzz"] = {"targets": "^Fuzz", "fuzztime": "40s"}
+
+# temporary entry added by the C12 builder (lead: replace/adjust as needed)
+PROPS["C12"] = {
+    "pkg": "c12",
+    "level": "exploration",
+    "rule": ("one REGISTRY of serialisable types (c12/entries_test.go, gen_test.go): every round message of session, AOR, Gennaro "
+             "(k256 x 3 NI compilers, ed25519, BLS12-381 G1), Canetti, redistribute, HJKY, Lindell22 (BIP-340 x 3 compilers), DKLs23 "
+             "(SoftSpoken and BBOT, with the ecbbot / SoftSpoken / rvole messages inside), Lindell17 signing (Fischlin, randomised "
+             "Fischlin) and DKG, VSOT, echo-broadcast envelopes and the router message (judged by a REAL network.Router), harvested "
+             "from honest runs over vlib/netsim and decoded with the type of their round; the proofs inside them under the three "
+             "compilers; KW / Shamir / ISN / Pedersen / lifted shares, verification vectors, MSPs, the five access structures "
+             "(enumerated policies, three ID regimes), base shards / public material and the Lindell22, DKLs23, Lindell17 (+ auxiliary "
+             "info), BLS shards; ECDSA / Schnorr / BLS keys, signatures, PoP, key-agreement keys; hash / Pedersen / IND-CPA commitments, "
+             "keys, witnesses; Paillier and ElGamal keys, plaintexts, nonces, ciphertexts (fixture primes through the constructors); "
+             "num / numct / modular / znstar values; matrices, polynomials; points, scalars and base-field elements of every curve. "
+             "Components are harvested from the produced values by walking them (also through unexported fields). Oracles: (R) encode "
+             "twice = same bytes, wire bytes = re-encoding, decode Equal and re-encoded to the same bytes; (M) duplicate key, unknown "
+             "field, indefinite-length array / map / byte / text string (also as map key), trailing bytes at up to 4-6 positions per "
+             "sample are rejected (bignum tag, removed / foreign tag, non-minimal integers, byte-string field names only recorded); "
+             "(V) every (field class x structural operator: null, undefined, missing field, empty array / map / bytes, 0, tag 55799 "
+             "wrap, 55799(null)) placement, 20 drawn cbormut mutations per type over a drawn leaf class, 8 drawn raw / truncated / "
+             "byte-edited strings and 34 hostile constants per type: no panic, an accepted object satisfies the validity rules written "
+             "from its constructor (walked recursively; curve membership judged by vlib/refcurve), re-encodes, decodes again to the "
+             "same encoding; (F) Paillier keys / Lindell17 material with sub-floor moduli are refused and a 3072-bit key accepted by a "
+             "separately built non-test program. Fuzz targets FuzzDecode_<family> run over their seed corpus. Non-trivial: the altered "
+             "bytes are still well-formed CBOR, or an R / M case of a composite type; distinct = (type, oracle, operator, field class)."),
+    "assumptions": COMMON_ASSUME + [
+        "vlib/cbormut (own CBOR reader / writer) produces the malformed and altered encodings; vlib/refcurve is the independent curve model for point validity",
+        "validity rules are as complete as the reading of each constructor (c12/valid_test.go names the constructor behind every rule); types without a constructor (plain message structs) are valid iff their components are",
+        "catalogued decoder deviations (known_findings.json, c12/pinned_test.go) are excluded per (type, operator group, failure kind) while they are still observed",
+    ],
+    "env": {"GOMAXPROCS": "2", "GOGC": "400"},
+    "quick": {"scale": 1, "shards": 16, "timeout_s": 1800},
+    "thorough": {"scale": 6, "shards": 16, "timeout_s": 7200},
+}
